@@ -116,3 +116,25 @@ CHECKS["C12"] = {
                     "tile store = in-memory map keyed by TilePath; HTTP, caching and file-system tile readers are outside the claim",
                     "CheckInclusion and Checkpoint are covered in the stub-based job (signature verification as an ideal oracle)"],
 }
+
+# ---------------------------------------------------------------- C18
+AFTERSUN = {"pkg": "filippo.io/sunlight/cmd/partial-aftersun", "pkgname": "main"}
+c18_cases = []
+for lvl, lay in [(0, 0), (1, 0), (-1, 0), (-2, 0)]:
+    c18_cases.append(case("cleanDir level %d layout %d" % (lvl, lay), "VerifC18Clean", [lvl, lay], ["ok", "removed"], Q))
+for lvl, lay in [(2, 0), (3, 0), (5, 0), (6, 0), (-1, 1), (0, 1), (2, 1)]:
+    c18_cases.append(case("cleanDir level %d layout %d" % (lvl, lay), "VerifC18Clean", [lvl, lay], ["ok"], T))
+
+CHECKS["C18"] = {
+    "level": "model_checking",
+    "jobs": [dict(AFTERSUN, harness=["cmd_partial-aftersun/zz_verif_c18.go"], native=False, cases=c18_cases)],
+    "bounds": {
+        "quick": "cleanDir over level directories tile/0, tile/1, tile/data, tile/names whose contents are any subset of a 14-path universe "
+                 "(full tiles 000/001/x001/002, their .p directories with widths 5/255/1/77, an empty full tile, a stray file, a leftover temp file), "
+                 "published tree size symbolic over [0, 2^63)",
+        "thorough": "additionally levels 2,3,5,6 and the witness/mirror layout (torchwood.ParseTilePath)",
+    },
+    "assumptions": ["model file system replaces os.Root / io/fs (ReadDir sorted listing, Remove of files and empty directories, Stat, Open, immutable flag); the real kernel is outside the claim",
+                    "size is taken as given: logSize/mirroredLogSize (signature-verified published checkpoint) are checked separately",
+                    "levels >= 7 (tile span overflows int64 and the division panics) are outside the claim: such tiles need a tree of 2^56 entries"],
+}
